@@ -24,6 +24,8 @@ pub const K_CONDVAR: u8 = 5;
 pub const K_CQUEUE: u8 = 6;
 pub const K_BLOCKER: u8 = 7;
 pub const K_PARKTO: u8 = 8;
+/// ops[2] (optional): the waiter starts after this many ns
+pub const START: u8 = 99;
 
 const R_EVENT: i64 = 0;
 const R_TIMEOUT: i64 = 1;
@@ -238,8 +240,13 @@ pub fn run(case: &Case) -> Outcome {
         }
         let (log2, states2, call_at2) = (log.clone(), states.clone(), call_at.clone());
         let ctx = if kind == K_PARKTO { CO } else { a.ctx };
+        let start = a.ops.get(2).map_or(0, u64_of);
         waiters.push((ai, ctx, kind, move || {
             let _dg = DoneGuard(&states2, ai);
+            // staggered starts: timers of the same duration armed at different times
+            if start > 0 {
+                sleep_ns(start);
+            }
             states2.enter(ai, 0, kind);
             let c = log2.call(ai, 0, kind);
             call_at2[ai].store(sched::now_ns(), Ordering::SeqCst);
@@ -414,7 +421,7 @@ pub fn strategy(g: &GenCfg) -> BoxedStrategy<Case> {
         2 => Just(K_BLOCKER),
         1 => Just(K_PARKTO),
     ];
-    let actor = (kind, gen::duration_ns(true), 0u8..2, 0u8..2).prop_flat_map(|(kind, d, ctx, ev_ctx)| {
+    let actor = (kind, gen::duration_ns(true), 0u8..2, 0u8..2, prop_oneof![2 => Just(0u64), 1 => 0u64..30_000_000], 0u8..3).prop_flat_map(|(kind, d, ctx, ev_ctx, start, same)| {
         // the event: never / before the call / somewhere in [0, 2d] / at the deadline +- a bit
         let e = prop_oneof![
             3 => Just((u64::MAX, false)),
@@ -425,11 +432,25 @@ pub fn strategy(g: &GenCfg) -> BoxedStrategy<Case> {
         e.prop_map(move |(e, before)| {
             let (dl, dh) = split(d);
             let (el, eh) = split(e);
-            Actor { ctx, role: 0, ops: vec![Op(kind, dl, dh), Op(ev_ctx | if before { 0x10 } else { 0 }, el, eh)] }
+            let (sl, sh) = split(start.min(d));
+            // role 1 = "use the duration of the previous actor" (resolved below)
+            Actor { ctx, role: (same == 0) as u8, ops: vec![Op(kind, dl, dh), Op(ev_ctx | if before { 0x10 } else { 0 }, el, eh), Op(START, sl, sh)] }
         })
     });
     let g2 = g.clone();
     (proptest::collection::vec(actor, 1..=5), gen::config(&g2), prop_oneof![2 => gen::schedule(&g2, false), 1 => gen::schedule(&g2, true)])
-        .prop_map(|(actors, (workers, pool, feat), sched)| Case { fam: "timed".into(), workers, pool, feat, cfg: vec![], actors, sched, weak: 0 })
+        .prop_map(|(mut actors, (workers, pool, feat), sched)| {
+            // several timers of the same duration (one interval list of the timer thread)
+            for i in 1..actors.len() {
+                if actors[i].role == 1 {
+                    let (a, b) = (actors[i - 1].ops[0].1, actors[i - 1].ops[0].2);
+                    actors[i].ops[0].1 = a;
+                    actors[i].ops[0].2 = b;
+                }
+                actors[i].role = 0;
+            }
+            actors[0].role = 0;
+            Case { fam: "timed".into(), workers, pool, feat, cfg: vec![], actors, sched, weak: 0 }
+        })
         .boxed()
 }
